@@ -481,8 +481,13 @@ def _values(r, shape, dtype, mag):
             if single:
                 ch = np.array([1e-37, 9.999999e37, -3.3e38, 1.5e-38, -1.0])
             else:
+                # (incl. values that ROUND UP into a three-digit exponent, where the
+                # field has one decimal less, and three-digit exponents themselves)
                 ch = np.array([1e-99, 9.999999999e99, -9.999999999e99, -1e-99,
-                               1.0000000005e-99, 123456789.5, -0.5])
+                               1.0000000005e-99, 123456789.5, -0.5,
+                               9.99999999996e99, -9.99999999996e99, -9.9999999995e99,
+                               1e100, -1e100, 3.3e100, -4.4e-100, -9.99999999996e-100,
+                               2.5e-120, -7.5e250])
             v = r.choice(ch, shape)
         return v
     m = part()
